@@ -41,6 +41,13 @@ use std::sync::{Arc, Mutex, MutexGuard, OnceLock};
 use std::time::{Duration, Instant, UNIX_EPOCH};
 
 const UNIT: u64 = 1_000_000;
+/// Auth.tla: Inf, the expiry of a session created with a "huge" lifetime
+const INF: i64 = 1_000_000;
+/// concretisations of the lifetime "huge" (seconds): powers of two around the integer-width boundaries, the largest
+/// value that does not overflow `now + lifetime`, and u64::MAX (which does)
+const HUGE: [u64; 6] = [1 << 31, 1 << 32, 1 << 53, 1 << 63, u64::MAX - (1 << 40), u64::MAX];
+/// remaining lifetimes from here on project to Inf (2^31 s minus room for the Ticks of a run)
+const INF_FROM: i128 = (1 << 31) - (1 << 28);
 
 fn now() -> u64 {
     UNIX_EPOCH.elapsed().unwrap().as_secs()
@@ -160,11 +167,24 @@ struct World {
     lives: Lives,
     bad_format: Vec<String>,
     calls: u64,
+    unk_tok_lens: HashSet<usize>, // lengths of the strings used as "unknown token" so far
+    tok_cache: std::cell::RefCell<Option<(Vec<String>, bool, std::rc::Rc<(Vec<String>, usize)>)>>,
+    uid_cache: std::cell::RefCell<Option<(Option<String>, std::rc::Rc<(Vec<String>, usize)>)>>,
+}
+
+/// how a stored expiry is kept in a snapshot: in whole units relative to the snapshot time (the sub-unit drift of
+/// the real clock is dropped: restoring behaves as if the whole path had run within one second, so a session with
+/// 0 units left has expiry == now exactly), or absolute for the never-expiring ones
+#[derive(Clone)]
+enum Rel {
+    None,
+    Units(i64),
+    Abs(u64),
 }
 
 #[derive(Clone)]
 struct Snap {
-    users: Vec<(User, i64)>, // user + (expiry - now) at snapshot time
+    users: Vec<(User, Rel)>,
     uids: Vec<String>,
     toks: Vec<String>,
     clock: i64,
@@ -227,13 +247,30 @@ impl World {
             lives,
             bad_format: vec![],
             calls: 0,
+            unk_tok_lens: HashSet::new(),
+            tok_cache: Default::default(),
+            uid_cache: Default::default(),
         }
     }
 
     fn snapshot(&self) -> Snap {
-        let n = now() as i64;
+        let n = now() as i128;
         Snap {
-            users: self.db.g().iter().map(|u| (u.clone(), u.session.as_ref().map(|s| s.expiry as i64 - n).unwrap_or(0))).collect(),
+            users: self
+                .db
+                .g()
+                .iter()
+                .map(|u| {
+                    let rel = match &u.session {
+                        None => Rel::None,
+                        Some(s) => {
+                            let d = s.expiry as i128 - n;
+                            if d >= INF_FROM { Rel::Abs(s.expiry) } else { Rel::Units((d + (UNIT as i128) / 2).div_euclid(UNIT as i128) as i64) }
+                        }
+                    };
+                    (u.clone(), rel)
+                })
+                .collect(),
             uids: self.uids.clone(),
             toks: self.toks.clone(),
             clock: self.clock,
@@ -244,10 +281,14 @@ impl World {
         let n = now() as i64;
         let mut v = self.db.g();
         v.clear();
-        for (u, off) in &s.users {
+        for (u, rel) in &s.users {
             let mut u = u.clone();
             if let Some(sess) = u.session.as_mut() {
-                sess.expiry = (n + off) as u64;
+                match rel {
+                    Rel::Units(k) => sess.expiry = (n + k * UNIT as i64) as u64,
+                    Rel::Abs(e) => sess.expiry = *e,
+                    Rel::None => {}
+                }
             }
             v.push(u);
         }
@@ -275,55 +316,119 @@ impl World {
                 match &u.session {
                     None => (ui, 0, 0),
                     Some(s) => {
-                        let d = s.expiry as i64 - n;
-                        let k = (d + (UNIT as i64) / 2).div_euclid(UNIT as i64);
-                        (ui, self.tok_index(&s.token), self.clock + k)
+                        let d = s.expiry as i128 - n as i128;
+                        if d >= INF_FROM {
+                            (ui, self.tok_index(&s.token), INF)
+                        } else {
+                            let k = (d + (UNIT as i128) / 2).div_euclid(UNIT as i128) as i64;
+                            (ui, self.tok_index(&s.token), self.clock + k)
+                        }
                     }
                 }
             })
             .collect()
     }
 
-    /// strings standing for "a uid that was never handed out"
-    fn unknown_uids(&self) -> Vec<String> {
-        let mut v = vec!["".to_string(), "00000000-0000-4000-8000-000000000000".to_string(), "*".to_string()];
-        if let Some(x) = self.db.g().first().map(|u| u.uid.clone()) {
-            let up = x.to_uppercase();
-            if up != x {
-                v.push(up);
+    /// strings standing for "a uid that was never handed out": (list, number of leading entries every edge tries;
+    /// the rest - every proper prefix - is tried in rotation)
+    fn unknown_uids(&self) -> std::rc::Rc<(Vec<String>, usize)> {
+        let first = self.db.g().first().map(|u| u.uid.clone());
+        if let Some((k, r)) = self.uid_cache.borrow().as_ref() {
+            if *k == first {
+                return r.clone();
             }
-            v.push(x[..x.len() - 1].to_string());
-            v.push(format!("{} ", x));
-            v.push(format!(" {}", x));
-            v.push(format!("{}0", x));
         }
-        v
+        let r = std::rc::Rc::new(self.unknown_uids_build(first.clone()));
+        *self.uid_cache.borrow_mut() = Some((first, r.clone()));
+        r
     }
 
-    /// strings standing for "a token that was never issued"; `cookie`: usable as a cookie value
-    /// (cookie values are trimmed by the request parser, so padded variants are left out there)
-    fn unknown_toks(&self, cookie: bool) -> Vec<String> {
-        let mut v = vec!["".to_string(), "0".repeat(64), "g".repeat(64), "*".to_string()];
-        let stored: Vec<String> = self.db.g().iter().filter_map(|u| u.session.as_ref().map(|s| s.token.clone())).collect();
-        for x in stored {
-            if x.is_empty() {
-                continue;
-            }
+    fn unknown_uids_build(&self, first: Option<String>) -> (Vec<String>, usize) {
+        let mut v = vec!["".to_string(), "00000000-0000-4000-8000-000000000000".to_string(), "*".to_string(), "-".to_string()];
+        let mut rot = vec![];
+        if let Some(x) = first {
             let up = x.to_uppercase();
             if up != x {
                 v.push(up);
             }
             v.push(x[..x.len() - 1].to_string());
             v.push(x[1..].to_string());
+            v.push(format!("{} ", x));
+            v.push(format!(" {}", x));
             v.push(format!("{}0", x));
+            v.push(format!("{}\u{a0}", x));
+            v.push(x.replacen('-', "\u{2010}", 1));
+            for l in 1..x.len() - 1 {
+                rot.push(x[..l].to_string());
+            }
+        }
+        let base = v.len();
+        v.extend(rot);
+        (v, base)
+    }
+
+    /// strings standing for "a token that was never issued": (list, number of leading entries every edge tries; the
+    /// rest - every proper prefix and suffix of every stored token - is tried in rotation).  `cookie`: usable as a
+    /// cookie value (Request::get_cookies trims values with the Unicode-aware str::trim, which is the request
+    /// parser's business, so white-space padded variants are left out there)
+    fn unknown_toks(&self, cookie: bool) -> std::rc::Rc<(Vec<String>, usize)> {
+        let stored: Vec<String> = self.db.g().iter().filter_map(|u| u.session.as_ref().map(|s| s.token.clone())).collect();
+        if let Some((k, c, r)) = self.tok_cache.borrow().as_ref() {
+            if *c == cookie && *k == stored {
+                return r.clone();
+            }
+        }
+        let r = std::rc::Rc::new(self.unknown_toks_build(&stored, cookie));
+        *self.tok_cache.borrow_mut() = Some((stored, cookie, r.clone()));
+        r
+    }
+
+    fn unknown_toks_build(&self, stored: &[String], cookie: bool) -> (Vec<String>, usize) {
+        let mut v = vec!["".to_string(), "0".repeat(64)];
+        let mut rot = vec!["g".repeat(64), "*".to_string(), "0".to_string()];
+        for x in stored {
+            if x.len() < 3 || !x.is_ascii() {
+                continue;
+            }
+            let up = x.to_uppercase();
+            if up != *x {
+                v.push(up);
+                // only the first letter digit in upper case
+                if let Some(i) = x.find(|c: char| c.is_ascii_lowercase()) {
+                    let mut m = x.clone();
+                    m.replace_range(i..i + 1, &x[i..i + 1].to_uppercase());
+                    rot.push(m);
+                }
+            }
+            v.push(x[..x.len() - 1].to_string());
+            v.push(x[1..].to_string());
+            v.push(format!("{}0", x));
+            rot.push(format!("0{}", x));
+            // the first decimal digit as a full-width digit (U+FF10..), which Unicode-aware digit tests accept
+            if let Some(i) = x.find(|c: char| c.is_ascii_digit()) {
+                let d = x.as_bytes()[i] - b'0';
+                let mut m = x.clone();
+                m.replace_range(i..i + 1, &char::from_u32(0xFF10 + d as u32).unwrap().to_string());
+                rot.push(m);
+            }
             if !cookie {
                 v.push(format!("{} ", x));
-                v.push(format!(" {}", x));
-                v.push(format!("{}\n", x));
+                rot.push(format!(" {}", x));
+                rot.push(format!("{}\n", x));
+                rot.push(format!("\u{a0}{}", x));
+                rot.push(format!("{}\u{2028}", x));
+                rot.push(format!("{}\0", x));
+            }
+            for l in 1..x.len() - 1 {
+                rot.push(x[..l].to_string());
+                rot.push(x[x.len() - l..].to_string());
             }
         }
         v.retain(|s| !self.toks.contains(s));
-        v
+        rot.retain(|s| !self.toks.contains(s));
+        let base = v.len();
+        v.extend(rot);
+        (v, base)
     }
 
     fn uid_str(&self, u: i64) -> String {
@@ -336,18 +441,65 @@ impl World {
         PW_MAPS[self.pwmap % PW_MAPS.len()][((pw - 1).max(0) as usize) % 4]
     }
 
-    fn variants(&self, a: &Act) -> usize {
+    fn pw_fam(fam: usize, pw: i64) -> &'static str {
+        PW_MAPS[fam % PW_MAPS.len()][((pw - 1).max(0) as usize) % 4]
+    }
+
+    /// verify on a uid that is not in the database does not reach Argon2: such calls are tried with every password family
+    fn verify_is_cheap(&self, a: &Act) -> bool {
+        a.op == "verify" && (a.u == 0 || !self.db.g().iter().any(|x| x.uid == self.uid_str(a.u)))
+    }
+
+    /// (number of concretisations of this call, how many of them every graph edge tries)
+    fn variants2(&self, a: &Act) -> (usize, usize) {
+        let fams = PW_MAPS.len();
         match a.op.as_str() {
-            "remove_user" | "verify" | "exists" | "create_session" | "invalidate_user_session" if a.u == 0 => self.unknown_uids().len(),
-            "refresh_session" | "invalidate_session" | "get_uid_by_token" if a.tok == 0 => self.unknown_toks(false).len(),
+            "verify" if a.u == 0 => { let r = self.unknown_uids(); (r.0.len() * fams, r.1 * fams) }
+            "verify" if self.verify_is_cheap(a) => (fams, fams),
+            "create_session" if a.life == "huge" => (HUGE.len(), 0),
+            "remove_user" | "exists" | "create_session" | "invalidate_user_session" if a.u == 0 => { let r = self.unknown_uids(); (r.0.len(), r.1) }
+            "refresh_session" | "invalidate_session" | "get_uid_by_token" if a.tok == 0 => { let r = self.unknown_toks(false); (r.0.len(), r.1) }
             "auth_route" => match a.ck.as_str() {
-                "none" => 2,
-                "wrongname" => 4,
-                _ if a.tok == 0 => self.unknown_toks(true).len(),
-                _ => 1,
+                "none" => (2, 2),
+                "wrongname" => (4, 4),
+                _ if a.tok == 0 => { let r = self.unknown_toks(true); (r.0.len(), r.1) }
+                _ => (1, 1),
             },
-            _ => 1,
+            _ => (1, 1),
         }
+    }
+
+    fn variants(&self, a: &Act) -> usize {
+        self.variants2(a).0
+    }
+
+    /// the concretisations a graph edge executes: all the "always" ones and four of the rotating ones (`counter`
+    /// = running edge number, so that over a run every prefix / suffix length is used many times); a state-changing
+    /// call (huge lifetime) gets exactly one
+    fn edge_variants(&self, a: &Act, counter: usize) -> Vec<usize> {
+        let (n, b) = self.variants2(a);
+        if a.op == "create_session" && a.life == "huge" {
+            return vec![counter % n];
+        }
+        let fams = PW_MAPS.len();
+        if a.op == "verify" && a.u == 0 {
+            // index = uid variant * families + family: every "always" uid with one family (rotating), 4 rotating uids
+            let (nu, bu) = (n / fams, b / fams);
+            let mut v: Vec<usize> = (0..bu).map(|i| i * fams + (counter + i) % fams).collect();
+            for j in 0..4 {
+                if nu > bu {
+                    v.push((bu + (counter * 4 + j) * 37 % (nu - bu)) * fams + (counter + j) % fams);
+                }
+            }
+            return v;
+        }
+        let mut v: Vec<usize> = (0..b).collect();
+        if n > b {
+            for j in 0..6 {
+                v.push(b + (counter * 6 + j) * 37 % (n - b));
+            }
+        }
+        v
     }
 
     fn err(e: AuthError) -> String {
@@ -357,16 +509,35 @@ impl World {
     /// Executes one operation on the real system (variant selects the concrete string for argument 0).
     fn apply(&mut self, a: &Act, variant: usize) -> (Obs, String) {
         self.calls += 1;
-        let uid = if a.u == 0 { let v = self.unknown_uids(); v[variant % v.len()].clone() } else { self.uid_str(a.u) };
-        let tok = if a.tok == 0 {
-            let v = self.unknown_toks(a.op == "auth_route");
-            v[variant % v.len()].clone()
+        let cheap_verify = self.verify_is_cheap(a);
+        let uid = if a.u == 0 {
+            let r = self.unknown_uids();
+            let i = if a.op == "verify" { variant / PW_MAPS.len() } else { variant };
+            r.0[i % r.0.len()].clone()
+        } else {
+            self.uid_str(a.u)
+        };
+        let tok = if a.tok == 0 && matches!(a.op.as_str(), "refresh_session" | "invalidate_session" | "get_uid_by_token" | "auth_route") {
+            let r = self.unknown_toks(a.op == "auth_route");
+            let t = r.0[variant % r.0.len()].clone();
+            self.unk_tok_lens.insert(t.chars().count());
+            t
+        } else if a.tok == 0 {
+            String::new()
         } else {
             self.tok_str(a.tok)
         };
         let st = self.st.clone();
         let lives = self.lives;
-        let pw = self.pw_str(a.pw).to_string();
+        let pw = if cheap_verify { Self::pw_fam(variant % PW_MAPS.len(), a.pw).to_string() } else { self.pw_str(a.pw).to_string() };
+        let life_secs: u64 = match a.life.as_str() {
+            "zero" => 0,
+            "default" => lives.default * UNIT,
+            "long" => lives.long * UNIT,
+            "huge" => HUGE[variant % HUGE.len()],
+            _ => 0,
+        };
+        let n0 = now();
         let op = a.op.clone();
         let life = a.life.clone();
         let ck = a.ck.clone();
@@ -388,7 +559,7 @@ impl World {
                     let r = match life.as_str() {
                         "default" => st.auth_provider().create_session(&uid),
                         "zero" => st.auth_provider().create_session_with_lifetime(&uid, 0),
-                        _ => st.auth_provider().create_session_with_lifetime(&uid, lives.long * UNIT),
+                        _ => st.auth_provider().create_session_with_lifetime(&uid, life_secs),
                     };
                     match r {
                         Ok(t) => ("ok".into(), None, Some(t)),
@@ -449,10 +620,25 @@ impl World {
         if a.op == "verify" || a.op == "create_user" {
             concrete += &format!(" password={:?}", pw);
         }
-        let (res, ru, rt) = match r {
+        let n1 = now();
+        let (mut res, ru, rt) = match r {
             Ok(x) => x,
             Err(_) => ("panic".to_string(), None, None),
         };
+        // exact expiry: a session created / refreshed by this call must carry expiry = now + lifetime, `now` read by the
+        // code between the two clock reads around the call (saturating at u64::MAX: a session cannot outlive the clock)
+        if res == "ok" && (a.op == "create_session" || a.op == "refresh_session") {
+            let (tokstr, l) = if a.op == "create_session" { (rt.clone().unwrap_or_default(), life_secs) } else { (tok.clone(), lives.refresh * UNIT) };
+            let e = self.db.g().iter().find_map(|u| u.session.as_ref().filter(|s| s.token == tokstr).map(|s| s.expiry));
+            let (lo, hi) = (n0.saturating_add(l), n1.saturating_add(l));
+            match e {
+                Some(e) if e >= lo && e <= hi => {}
+                other => res = format!("ok!stored-expiry={:?},demanded={}..={}", other, lo, hi),
+            }
+        }
+        if a.op == "create_session" {
+            concrete += &format!(" lifetime={}s", life_secs);
+        }
         let mut o = Obs { res, ruid: 0, rtok: 0 };
         if let Some(u) = ru {
             if a.op == "create_user" {
@@ -486,7 +672,7 @@ impl World {
     fn tick(&mut self) {
         for u in self.db.g().iter_mut() {
             if let Some(s) = u.session.as_mut() {
-                s.expiry -= UNIT;
+                s.expiry = s.expiry.saturating_sub(UNIT);
             }
         }
         self.clock += 1;
@@ -548,6 +734,34 @@ fn nontrivial(e: &Edge, si: usize) -> bool {
     e.t != si
         || matches!(e.exp.res.as_str(), "true" | "200")
         || (e.exp.res == "ok" && matches!(e.a.op.as_str(), "get_uid_by_token" | "refresh_session"))
+}
+
+/// lifecycle classes of an edge (measured, required by the driver): calls exactly at the expiry second, a new session
+/// over one that expired by itself, a refresh that shortens the remaining lifetime, huge lifetimes, create after remove
+fn lifecycle_tags(e: &Edge, s: &SpecState, lives: Lives) -> Vec<String> {
+    let mut v = vec![];
+    let slot_u = if e.a.u > 0 { s.us.get((e.a.u - 1) as usize).cloned() } else { None };
+    let slot_t = if e.a.tok > 0 { s.us.iter().find(|x| x.0 != 0 && x.1 == e.a.tok).cloned() } else { None };
+    if let Some(x) = slot_t {
+        if x.2 == s.c && matches!(e.a.op.as_str(), "get_uid_by_token" | "refresh_session" | "auth_route") {
+            v.push(format!("{}:at-expiry", e.a.op));
+        }
+        if e.a.op == "refresh_session" && e.exp.res == "ok" && x.2 > s.c + lives.refresh as i64 {
+            v.push("refresh_session:ok:shortens".to_string());
+        }
+    }
+    if let Some(x) = slot_u {
+        if e.a.op == "create_session" && e.exp.res == "ok" && x.1 != 0 {
+            v.push(if x.2 == s.c { "create_session:ok:at-expiry" } else { "create_session:ok:over-expired" }.to_string());
+        }
+        if e.a.op == "create_session" && e.exp.res == "ok" && e.a.life == "huge" {
+            v.push("create_session:ok:huge".to_string());
+        }
+    }
+    if e.a.op == "create_user" && s.nu > s.us.iter().filter(|x| x.0 != 0).count() {
+        v.push("create_user:ok:after-remove".to_string());
+    }
+    v
 }
 
 /// an operation in the log format of `trace` (result fields are filled in when it is executed)
@@ -619,7 +833,9 @@ fn graph(args: &[String]) {
     let init = match init { Some(i) => i, None => { eprintln!("no initial state among the edges"); std::process::exit(2) } };
 
     // ---- breadth-first edge replay
-    let mut w = World::new(pepper, rng.below(PW_MAPS.len()), lives);
+    // password family: without pepper always the degenerate one ("" / " " / NUL / two blanks), with pepper by seed
+    let mut w = World::new(pepper, if pepper { rng.below(PW_MAPS.len()) } else { 1 }, lives);
+    let mut edge_counter = 0usize;
     let mut snaps: Vec<Option<Snap>> = (0..states.len()).map(|_| None).collect();
     let mut parent: Vec<Option<(usize, usize)>> = (0..states.len()).map(|_| None).collect(); // (state, edge index) of the BFS tree
     snaps[init] = Some(w.snapshot());
@@ -633,6 +849,7 @@ fn graph(args: &[String]) {
     let mut mism_rie: Vec<Value> = vec![];
     let mut n_mism = 0u64;
     let mut n_rie = 0u64;
+    let mut n_eo = 0u64;
     let mut argon_calls = 0u64;
     let mut edges_nontrivial = 0u64;
     let mut classes: BTreeMap<String, u64> = BTreeMap::new();
@@ -653,9 +870,9 @@ fn graph(args: &[String]) {
             }
             if needs_argon { argon_calls += 1; }
             w.restore(&snap);
-            let nv = w.variants(&e.a);
+            edge_counter += 1;
             let mut ok_edge = true;
-            for variant in 0..nv {
+            for variant in w.edge_variants(&e.a, edge_counter) {
                 let (got, concrete) = if e.a.op == "tick" { w.tick(); (Obs { res: "ok".into(), ruid: 0, rtok: 0 }, String::new()) } else { w.apply(&e.a, variant) };
                 let d = if got != e.exp { Some(format!("returned {:?}, spec expects {:?}", got, e.exp)) } else { diff_state(&w, &states[e.t]) };
                 if let Some(d) = d {
@@ -666,13 +883,18 @@ fn graph(args: &[String]) {
                     let rie = e.a.op == "refresh_session" && e.exp.res == "InvalidToken" && got.res == "ok"
                         && s.us.iter().any(|x| x.0 != 0 && x.1 == e.a.tok && x.2 <= s.c);
                     if rie { n_rie += 1; }
-                    if (rie && mism_rie.len() < 8) || (!rie && mism.len() < 30) {
+                    // the shape of ExpiryOverflow: a lifetime that overflows now + lifetime (u64::MAX) panics (overflow checks
+                    // are on in this build) or yields a session that is already expired
+                    let eo = e.a.op == "create_session" && e.a.life == "huge" && e.exp.res == "ok" && HUGE[variant % HUGE.len()] == u64::MAX;
+                    if eo { n_eo += 1; }
+                    let known = rie || eo;
+                    if (known && mism_rie.len() < 8) || (!known && mism.len() < 30) {
                         let mut ops = path_ops(&parent, &out, si, pepper);
                         ops.push(op_rec(&e.a, variant, pepper));
                         let m = json!({"pepper": pepper, "ops": ops, "state": {"clock": s.c, "users_pw_tok_exp": s.us.iter().map(|x| json!([x.0, x.1, x.2])).collect::<Vec<_>>()},
                             "call": e.raw_a, "concrete": concrete, "difference": d,
-                            "class": if rie { "RefreshIgnoresExpiry" } else { "" }});
-                        if rie { mism_rie.push(m) } else { mism.push(m) }
+                            "class": if rie { "RefreshIgnoresExpiry" } else if eo { "ExpiryOverflow" } else { "" }});
+                        if known { mism_rie.push(m) } else { mism.push(m) }
                     }
                     w.restore(&snap);
                     break;
@@ -681,9 +903,12 @@ fn graph(args: &[String]) {
             edges_run += 1;
             if nontrivial(e, si) { edges_nontrivial += 1; }
             *classes.entry(format!("{}:{}", e.a.op, e.exp.res)).or_insert(0) += 1;
+            for t in lifecycle_tags(e, &states[si], lives) {
+                *classes.entry(t).or_insert(0) += 1;
+            }
             bad_format += w.bad_format.len() as u64;
             w.bad_format.clear();
-            if e.a.op == "create_session" && e.exp.res == "ok" {
+            if ok_edge && e.a.op == "create_session" && e.exp.res == "ok" {
                 if let Some(t) = w.toks.last() {
                     if !all_tokens.insert(t.clone()) {
                         dup_tokens += 1;
@@ -728,6 +953,9 @@ fn graph(args: &[String]) {
                     run += 1;
                     if nontrivial(e, si) { nt += 1; }
                     *cl.entry(format!("{}:{}", e.a.op, e.exp.res)).or_insert(0) += 1;
+                    for t in lifecycle_tags(e, &states[si], lives) {
+                        *cl.entry(t).or_insert(0) += 1;
+                    }
                     if let Some(d) = d {
                         nm += 1;
                         if ms.len() < 5 {
@@ -808,7 +1036,8 @@ fn graph(args: &[String]) {
         }
     }
     out_line(&json!({"summary": true, "pepper": pepper, "edges_total": n_edges, "edges_run": edges_run, "argon_edges_skipped": argon_skipped,
-        "states_total": states.len(), "states_reached": reached, "calls": calls, "mismatches": n_mism, "mismatches_refresh_ignores_expiry": n_rie, "first": mism, "first_refresh_ignores_expiry": mism_rie, "argon_edges_run": argon_calls,
+        "states_total": states.len(), "states_reached": reached, "calls": calls, "mismatches": n_mism, "mismatches_refresh_ignores_expiry": n_rie, "mismatches_expiry_overflow": n_eo, "first": mism, "first_refresh_ignores_expiry": mism_rie,
+        "unknown_token_lengths": w.unk_tok_lens.len(), "argon_edges_run": argon_calls,
         "classes": classes, "samples": samples, "tokens_issued": all_tokens.len(), "token_dups": dup_tokens, "token_bad_format": bad_format,
         "walks": walks, "walk_steps": walk_steps, "walk_mismatches": walk_mism, "bfs_s": bfs_s, "argon_s": argon_s, "edges_nontrivial": edges_nontrivial}));
     std::process::exit(0);
@@ -862,7 +1091,7 @@ fn one_trace(seed: u64, idx: usize, maxlen: usize, lives: Lives) -> (Vec<String>
         } else if r < 37 {
             a.op = "create_session".into();
             a.u = pick_u(&mut rng);
-            a.life = (*rng.pick(&["zero", "default", "default", "long"])).to_string();
+            a.life = (*rng.pick(&["zero", "default", "default", "long", "huge"])).to_string();
         } else if r < 50 {
             a.op = "refresh_session".into();
             a.tok = pick_t(&mut rng);
